@@ -26,6 +26,10 @@ def run(ctx):
         big = ctx.rng.sample([fr.BIG_MATCH, fr.MID_MATCH, fr.MATCH, fr.CONTENT["match"][3]], 2)
         s["contents"] = [big.pop() if k == "match" else ctx.rng.choice(fr.CONTENT[k]) for k in ks]
     scs += pick(ctx, three, 80 if quick else None)
+    # in-place runs in which the kernel refuses the write of the new content (file size limit): whatever the run
+    # leaves on disk and calls a success parses
+    wf = [s for s in fr.enumerate_scenarios(2, faults=["fsize"]) if not s["flags"]["diff"] and not s["flags"]["print"] and "match" in s["kinds"]]
+    scs += pick(ctx, wf, 60 if quick else None)
     real = [fr.realise(ctx, s, "c07-%d" % i, ctx.rng) for i, s in enumerate(scs)]
     recs = fr.run_cli(ctx, real, "c07")
     results = fr.validate(ctx, "c07", recs, ref)
